@@ -51,6 +51,16 @@ EXTRA = [
     "def a := 5\ndef b := if a > 3 then \"big\" else \"small\"\nprint(b)\n",
     "def u(a: Int?) -> Int => a ? 0\nprint(u(None))\n",
     "def p(x: (Int, Str)) -> Int => 1\nprint(p((1, \"a\")))\n",
+    # statements whose POSITION matters: imports and doc strings after other statements, with and without
+    # annotation-only support imports
+    "def lim: Int? := 3\nprint(\"start\")\nimport sys\nprint(\"end\")\n",
+    "print(1)\nimport math\ndef t: (Int, Str) := (1, \"a\")\nfrom os import path\nprint(2)\n",
+    "def a := sqrt 16\nimport sys\nprint(a)\n",
+    "print(0)\n\"\"\"late doc\"\"\"\ndef q: Int? := None\nprint(1)\n",
+    # definitions without a value, at top level and as class fields, read before they are assigned
+    "class Acc\n    def total: Int\n    def name: Str?\n    def show(self) =>\n        print(self.total)\n\ndef a := Acc()\na.show()\n",
+    "def y: Int\ndef z: Str?\nprint(1)\n",
+    "type Shape\n    def area(self) -> Int\nclass Base\n    def b: Int := 1\ntype Solid: Base\n    def vol(self) -> Int\n",
 ]
 
 
